@@ -23,6 +23,7 @@ fn main() {
         "C33" => c33::main(args),
         "C34" => c34::main(args),
         "C03WORKER" => c03::worker(args),
+        "C03RED" => c03::reduce_main(args),
         p => {
             eprintln!("mon_sim: unknown property {p}");
             std::process::exit(2);
